@@ -44,21 +44,22 @@ Definition g_set_memo (g : group) (m : option sset) : group := Grp (g_units g) (
     Running out of fuel is pint's [RecursionError] (or a hang) on a cyclic graph. *)
 Definition fuel_of (st : gstate) : nat := S (size st).
 
-(** [iter_used_groups]: every group reachable through [_used_groups] from the given direct
-    uses ([pending = set(self._used_groups)]; pop; [d[name]] — KeyError when missing;
-    [pending |= group._used_groups]).  There is no visited set: termination needs acyclicity. *)
-Fixpoint desc (fuel : nat) (st : gstate) (used : list string) : res sset :=
+(** The two walks of the group graph — down through [_used_groups] ([iter_used_groups]) and up
+    through [_used_by] ([invalidate_members]) — are the same recursion over a different edge set:
+    the group itself and everything reachable from it.  [d[name]] is a KeyError for a missing
+    name.  There is no visited set in pint: termination needs acyclicity. *)
+Fixpoint reach (next : group → sset) (fuel : nat) (st : gstate) (n : string) : res sset :=
   match fuel with
   | O => Err EFuel
   | S f =>
-      foldM (λ acc m,
-        match st !! m with
-        | None => Err EKey
-        | Some g => s ←r desc f st (elements (g_used g)); Ok (acc ∪ {[ m ]} ∪ s)
-        end) used ∅
+      match st !! n with
+      | None => Err EKey
+      | Some g => foldM (λ acc m, s ←r reach next f st m; Ok (acc ∪ s)) (elements (next g)) {[ n ]}
+      end
   end.
+(** [iter_used_groups]: [pending = set(self._used_groups)]; pop; [pending |= group._used_groups] *)
 Definition iter_used (st : gstate) (g : group) : res sset :=
-  desc (fuel_of st) st (elements (g_used g)).
+  foldM (λ acc m, s ←r reach g_used (fuel_of st) st m; Ok (acc ∪ s)) (elements (g_used g)) ∅.
 
 (** [is_used_group] *)
 Definition is_used_group (st : gstate) (g : group) (name : string) : res bool :=
@@ -94,26 +95,22 @@ Definition fill (st : gstate) (zs : sset) : gstate :=
             end
           else g)) st.
 Definition members (st : gstate) (n : string) : gstate * res sset :=
-  match members_val st n, st !! n with
-  | Ok v, Some g =>
-      match iter_used st g with
-      | Ok ds => (fill st ({[ n ]} ∪ ds), Ok v)
-      | Err e => (st, Err e)
+  match st !! n with
+  | None => (st, Err EKey)
+  | Some g =>
+      match g_memo g with
+      | Some m => (st, Ok m)                 (* memo hit: nothing else is touched *)
+      | None =>
+          match members_val st n, iter_used st g with
+          | Ok v, Ok ds => (fill st ({[ n ]} ∪ ds), Ok v)
+          | Err e, _ => (st, Err e)
+          | _, Err e => (st, Err e)
+          end
       end
-  | Ok v, None => (st, Err EKey)
-  | Err e, _ => (st, Err e)
   end.
 
 (** [invalidate_members]: clear the memo here and, recursively, in every group of [_used_by]. *)
-Fixpoint anc (fuel : nat) (st : gstate) (n : string) : res sset :=
-  match fuel with
-  | O => Err EFuel
-  | S f =>
-      match st !! n with
-      | None => Err EKey
-      | Some g => foldM (λ acc m, s ←r anc f st m; Ok (acc ∪ s)) (elements (g_used_by g)) {[ n ]}
-      end
-  end.
+Definition anc (fuel : nat) (st : gstate) (n : string) : res sset := reach g_used_by fuel st n.
 Definition clear (zs : sset) (st : gstate) : gstate :=
   map_imap (λ k g, Some (if bool_decide (k ∈ zs) then g_set_memo g None else g)) st.
 Definition invalidate (st : gstate) (n : string) : gstate * res unit :=
